@@ -1,5 +1,6 @@
 import XlModel.Grid
 import XlModel.GridPayload
+import XlModel.GridLinks
 import XlModel.Ref
 import XlModel.Drv.Util
 /-!
@@ -120,18 +121,20 @@ def parseSetter (w : String) : Option Setter :=
   | [] => none
 
 structure St where
+  links : Links := []
   impl : Sheet := {}
   spec : Spec.Sheet := Spec.init 1
 
 def resTag (sst : List Tok) : Res → String
   | .ok => "ok" | .err => "E_REF" | .style n => s!"style {n}"
+  | .merges l => "gm " ++ String.intercalate ";" (l.map fun m => rectRef m.ref)
   | .cell none => "none"
   | .cell (some c) => s!"{nameOf c.col c.row}={cellTok sst c.val}"
 
 def apply (st : St) (op : Op) : St × Res :=
   let (i, r) := step st.impl op
   let (sp, _) := Spec.step st.spec op
-  ({ impl := i, spec := sp }, r)
+  ({ st with impl := i, spec := sp }, r)
 
 def out (st : St) (r : Res) : St × String := (st, resTag st.impl.sst r ++ " | " ++ dump st.impl)
 
@@ -172,7 +175,7 @@ def obsLine (st : St) (c1 r1 c2 r2 : Nat) : String :=
 def stepLine (st : St) (w : List String) : St × String :=
   match w with
   | ["new", n] => match n.toNat? with
-    | some n => let st' : St := { impl := { nStyles := n }, spec := Spec.init n }; out st' .ok
+    | some n => let st' : St := { links := [], impl := { nStyles := n }, spec := Spec.init n }; out st' .ok
     | none => (st, "bad-op")
   | ["val", k, h, arg] =>
     match parseValue k arg, decode h with
@@ -197,8 +200,8 @@ def stepLine (st : St) (w : List String) : St × String :=
         let a := anchor st1.impl.merges c r
         let (c, r) := a
         let (st2, _) := apply st1 (.getStyle c r)
-        let st3 : St := { impl := { st2.impl with nStyles := max st2.impl.nStyles (id + 1) },
-                          spec := { st2.spec with nStyles := max st2.spec.nStyles (id + 1) } }
+        let st3 : St := { st2 with impl := { st2.impl with nStyles := max st2.impl.nStyles (id + 1) },
+                                   spec := { st2.spec with nStyles := max st2.spec.nStyles (id + 1) } }
         let (st4, res4) := apply st3 (.style c r c r id)
         out st4 res4
       | none => out st1 res
@@ -217,10 +220,28 @@ def stepLine (st : St) (w : List String) : St × String :=
       let (st', res) := apply st (.style c1 r1 c2 r2 idn); out st' res
     | some _, some _, some _ => out st .err
     | _, _, _ => (st, "bad-op")
-  | ["hl", h, _] =>
+  | ["hl", h, l] =>
     match decode h with
-    | some (.ok _, _) => out st .ok
+    | some (.ok (c, r), _) =>
+      let (ls, res) := setLink st.impl.merges st.links c r l
+      out { st with links := ls } res
     | some (.error _, _) => out st .err
+    | none => (st, "bad-op")
+  | ["hlrm", h] =>
+    match decode h with
+    | some (.ok (c, r), _) =>
+      let (ls, res) := unsetLink st.impl.merges st.links c r
+      out { st with links := ls } res
+    | some (.error _, _) => out st .err
+    | none => (st, "bad-op")
+  | ["hlget", h] =>
+    match decode h with
+    | some (.ok (c, r), _) =>
+      match getLink st.impl.merges st.links c r with
+      | some (some l) => (st, "link " ++ l)
+      | some none => (st, "nolink")
+      | none => (st, "E_REF")
+    | some (.error _, _) => (st, "E_REF")
     | none => (st, "bad-op")
   | ["gsty", h] =>
     match decode h with
@@ -243,6 +264,26 @@ def stepLine (st : St) (w : List String) : St × String :=
     | some (.error _) => out st .err
     | none => (st, "bad-op")
   | ["gm"] => let (st', res) := apply st .getMerges; out st' res
+  | "vseq" :: dir :: h :: n :: rest =>
+    match decode h, n.toNat? with
+    | some (.ok (c, r), _), some n =>
+      if rest.length ≠ 2 * n then (st, "bad-op") else
+      let rec vals : List String → Option (List Value)
+        | [] => some []
+        | k :: a :: tl => match parseValue k a, vals tl with
+          | some v, some vs => some (v :: vs)
+          | _, _ => none
+        | _ => none
+      match vals rest with
+      | some vs =>
+        -- the model function, cross-checked with the step-by-step execution that also drives Spec
+        let m := setSheetCells st.impl (dir == "r") c r 0 vs
+        let (st', res) := runSeq st dir (Grid.seqOps (dir == "r") c r 0 vs)
+        let (st'', line) := out st' res
+        (st'', if dump m.1 == dump st'.impl ∧ m.2 == res then line else line ++ " SEQDIFF")
+      | none => (st, "bad-op")
+    | some (.error _, _), some _ => out st .err
+    | _, _ => (st, "bad-op")
   | "seq" :: dir :: h :: n :: rest =>
     match decode h, n.toNat? with
     | some (.ok (c, r), _), some n =>
